@@ -31,22 +31,32 @@ SCENARIOS = {
 class RecDeque(collections.deque):
     """The controller's own deque type, recording its linearised operations."""
     log = None
+    api = None          # parallel to log: the client call (add/insert) in progress on the thread that does the operation
+
+    @staticmethod
+    def _api():
+        sch = simsched.S()
+        RecDeque.api.append(RecDeque.api_of.get(sch.cur if sch is not None else None))
 
     def append(self, x):
         RecDeque.log.append(('append', x))
+        RecDeque._api()
         super().append(x)
 
     def appendleft(self, x):
         RecDeque.log.append(('appendleft', x))
+        RecDeque._api()
         super().appendleft(x)
 
     def popleft(self):
         x = super().popleft()
         RecDeque.log.append(('popleft', x))
+        RecDeque.api.append(None)
         return x
 
     def clear(self):
         RecDeque.log.append(('clear', None))
+        RecDeque.api.append(None)
         super().clear()
 
 
@@ -55,6 +65,8 @@ def scenario(ctx, clients, max_preempt, raising):
     saved = (jc_mod.threading, jc_mod.collections)
     jc_mod.threading = simsched.ShimThreading
     RecDeque.log = []
+    RecDeque.api = []
+    RecDeque.api_of = {}
     jc_mod.collections = type('C', (), {'deque': RecDeque})
     problems = []
     try:
@@ -95,10 +107,14 @@ def scenario(ctx, clients, max_preempt, raising):
                 for op, ident in prog:
                     if op == 'add':
                         jobs[ident] = J(ident, False)
+                        RecDeque.api_of[s.cur] = 'add'
                         r = jc.add_job(jobs[ident], 'q%s' % ident)
+                        RecDeque.api_of.pop(s.cur, None)
                     elif op == 'insert':
                         jobs[ident] = J(ident, False)
+                        RecDeque.api_of[s.cur] = 'insert'
                         r = jc.insert_job(jobs[ident], 'q%s' % ident)
+                        RecDeque.api_of.pop(s.cur, None)
                     elif op == 'spawn':
                         jobs[ident] = J(ident, True)
                         r = jc.spawn_job(jobs[ident], ident)
@@ -144,7 +160,12 @@ def scenario(ctx, clients, max_preempt, raising):
         # order: every started queued job was the head of the queue as linearised by the controller's own deque
         model = collections.deque()
         order = []
-        for op, x in RecDeque.log:
+        for (op, x), api in zip(RecDeque.log, RecDeque.api):
+            # the client call decides the end of the queue, not the deque operation the controller happens to use
+            if op == 'append' and api == 'insert' and model:
+                problems.append('insert_job put job %s behind %d waiting job(s) instead of at the front' % (x.job.ident, len(model)))
+            if op == 'appendleft' and api == 'add' and model:
+                problems.append('add_job put job %s in front of %d waiting job(s) instead of at the end' % (x.job.ident, len(model)))
             if op == 'append':
                 model.append(x)
             elif op == 'appendleft':
